@@ -12,6 +12,9 @@ import py4hw
 from . import core
 
 
+_ELABORATED_ONLY = []
+
+
 def cfgname(d):
     return d.get('block', '?') + '(' + ','.join('%s=%s' % (k, v) for k, v in sorted(d.items()) if k != 'block') + ')'
 
@@ -53,6 +56,10 @@ def run_comb(desc, build, ref, prop, alphabets=None, max_viol=3, use_clk=False):
             finally:
                 py4hw.HWSystem = orig
         else:
+            # the same configuration is first elaborated in another system that is never simulated and stays alive (same
+            # instance paths and wire names): what one system builds must not be picked up by the next one
+            _ELABORATED_ONLY.append(build(desc))
+            del _ELABORATED_ONLY[:-2]
             hw, ins, outs = build(desc)
     except (AssertionError, Exception) as e:
         core.reset_prepared()
